@@ -266,14 +266,16 @@ PROPS = {
         "not_covered": ["AhocorasickTokenizer.get_extractors / HyperscanTokenizer.extract_tokens bodies (C13 / C14)"],
     },
     "C16": {
-        "pins": ['utils.hash_sha256'],
+        "pins": ['utils.hash_sha256', 'models.CitationBase.__post_init__'],
         "contracts": ["a_common", "c18_helpers", "resolve"],
         # guess_edition carries the variation lemma: a single candidate edition is always guessed, so a variation spelling normalises to the canonical one
         "functions": ["models.ResourceCitation.corrected_reporter", "models.Edition.includes_year", "models.ResourceCitation.guess_edition"],
         "extra": [_c16_extra],
         "assumptions": [A_HASH, "E-HASH: json.dumps(sort_keys=True, default=str) is injective on the hashed dictionaries",
                         "case citations carry 'page' and 'reporter' groups (reporters-db guarantee quoted in CaseCitation.__hash__'s docstring)",
-                        "the hash of law/journal citations includes the sorted candidate editions; their equality is an uninterpreted component"],
+                        "the hash of law/journal citations includes the sorted candidate editions; their equality is an uninterpreted component",
+                        "a placeholder page (a run of underscores) is normalised to groups['page'] = None by CitationBase.__post_init__ (assumed, pinned by SHA-256; "
+                        "the hash model states placeholder identity over page None)"],
         "not_covered": ["'every spelling variation that the database maps unambiguously to an edition equals the canonical spelling' is extraction over the database "
                         "(bounded stand-in: exhaustive over reporters-db)",
                         "the re-parse / fixed-point clause of corrected_citation() (round trip through the extractor)"],
